@@ -370,6 +370,10 @@ def extra(rng, tier):
             raise RuntimeError(f"controller base run failed for {name}: {base} {summ}")
         choices = summ["choices"]
         meta[name] = {"k": k, "choice_points": len(choices), "steps": summ["steps"]}
+        if summ["status"] not in ("ok", "idle"):
+            # the default (fair, non-preemptive) schedule already fails: report it, do not enumerate thousands of such runs
+            failures.append(fw.Failure("oracle", {"op": "threads", "cfg": cfg, "pre": []}, f"run ended with status {summ['status']} under the default schedule"))
+            continue
         items.append({"name": name, "cfg": cfg, "pre": [], "start": 0, "depth": k, "k": k})  # the base run itself
         if k >= 1:
             for i, t in thr_ctl.first_level([tuple(c) for c in choices]):
